@@ -169,3 +169,14 @@ MUTANTS["C19"] = [
     ("safe-filter-ignored", "annet/generators/result.py", "            if not safe or gr.is_safe:", "            if not safe or gr.is_safe or gr.prio > 100:"),
     ("uploads-old-content", "annet/api/__init__.py", "                    upload_files[file] = file_content.encode()", "                    upload_files[file] = (file_content if len(file_content) < 12 else file_content.rstrip(\"\\n\")).encode()"),
 ]
+
+MUTANTS["C10"] = [
+    ("fatal-acl-off", "annet/generators/__init__.py", "                    rules=rules,\n                    fatal_acl=True,", "                    rules=rules,\n                    fatal_acl=False,"),
+    ("merge-keeps-last", "annet/annlib/lib.py", "            if isinstance(value, (dict, odict)):\n                merged[key] = merge_dicts(*[x[key] for x in args if key in x])", "            if isinstance(value, (dict, odict)):\n                merged[key] = merge_dicts(*[x[key] for x in args if key in x][-1:])"),
+    ("indents-not-popped", "annet/generators/base.py", "        yield\n        self._indents.pop(-1)\n        self._block_path.pop(-1)", "        yield\n        if len(self._indents) < 3:\n            self._indents.pop(-1)\n        self._block_path.pop(-1)"),
+    ("exclusive-more-than-two", "annet/annlib/patching.py", "            if len(can_delete) > 1:", "            if len(can_delete) > 2:"),
+    ("exclusive-first-rule-decides", "annet/annlib/patching.py", "                    if name not in gen_cant_delete:\n                        gen_cant_delete[name] = flag\n                    else:\n                        gen_cant_delete[name] &= flag", "                    gen_cant_delete.setdefault(name, flag)"),
+    ("acl-text-not-dedented", "annet/generators/result.py", "        for line in textwrap.dedent(acl_getter(gr)).split(\"\\n\"):", "        for line in acl_getter(gr).split(\"\\n\"):"),
+    ("block_if-empty-token-still-blocks", "annet/generators/base.py", "            condition = (None not in tokens and \"\" not in tokens)", "            condition = (None not in tokens)"),
+    ("exclusive-flag-dropped", "annet/gen.py", "                exclusive=not ctx.args.no_acl_exclusive,\n                with_annotations=ctx.add_annotations,\n            )\n            if ctx.args.acl_safe:", "                exclusive=False,\n                with_annotations=ctx.add_annotations,\n            )\n            if ctx.args.acl_safe:"),
+]
